@@ -33,6 +33,10 @@ struct Edge {
     text: String,
     family: &'static str,
     kind: EdgeKind,
+    /// For the pattern family: the shape of the first arm that mixes a binding pattern with other
+    /// alternatives (literals abstracted). Violations of such programs are keyed by this shape —
+    /// one stable key per root cause instead of one per enumerated program.
+    class_key: Option<String>,
 }
 
 #[derive(Clone, Copy, PartialEq)]
@@ -47,7 +51,7 @@ fn sig() -> String {
 }
 
 fn fun(ret: &str, body: &str, family: &'static str) -> Edge {
-    Edge { extra_decls: "", text: format!("function f({}) {ret} {{ {body} }}", sig()), family, kind: EdgeKind::Function }
+    Edge { extra_decls: "", text: format!("function f({}) {ret} {{ {body} }}", sig()), family, kind: EdgeKind::Function, class_key: None }
 }
 
 // ---------------------------------------------------------------------------------------------
@@ -100,7 +104,19 @@ fn pattern_alphabets() -> Vec<PatAlpha> {
     ]
 }
 
-fn e1_patterns(out: &mut Vec<Edge>) {
+fn pat_shape(p: &str, binder: bool) -> String {
+    // abstract literals and binder names: Some(v) -> Some(<bind>), Some(1) -> Some(<lit>)
+    match p.find('(') {
+        Some(i) if p.ends_with(')') && !p.starts_with("S ") => {
+            format!("{}({})", &p[..i], if binder { "<bind>" } else { "<lit>" })
+        }
+        _ if binder => "<bind>".to_string(),
+        _ if p == "None" => "None".to_string(),
+        _ => "<lit>".to_string(),
+    }
+}
+
+fn e1_patterns(out: &mut Vec<Edge>, tier: Tier) {
     for a in pattern_alphabets() {
         // arm alternatives: ordered selections of 1..=2 distinct patterns
         let mut arms: Vec<Vec<usize>> = Vec::new();
@@ -116,6 +132,10 @@ fn e1_patterns(out: &mut Vec<Edge>) {
         for a1 in &arms {
             arm_lists.push(vec![a1]);
             for a2 in &arms {
+                // quick: at most one arm of the two has alternatives
+                if tier == Tier::Quick && a1.len() > 1 && a2.len() > 1 {
+                    continue;
+                }
                 arm_lists.push(vec![a1, a2]);
             }
         }
@@ -151,8 +171,28 @@ fn e1_patterns(out: &mut Vec<Edge>) {
                         arm_texts_e.push("_ => 7".into());
                         arm_texts_s.push("_ => { return 7 }".into());
                     }
-                    out.push(fun("int", &format!("return match {} {{ {} }}", a.scrutinee, arm_texts_e.join(" ")), "match_expr_patterns"));
-                    out.push(fun("int", &format!("match {} {{ {} }} return 8", a.scrutinee, arm_texts_s.join(" ")), "match_stmt_patterns"));
+                    let mixed = al.iter().find(|arm| arm.len() > 1 && arm.iter().any(|i| a.pats[*i].1.is_some())).map(|arm| {
+                        arm.iter().map(|i| pat_shape(a.pats[*i].0, a.pats[*i].1.is_some())).collect::<Vec<_>>().join(" | ")
+                    });
+                    let has_binder = al.iter().any(|arm| arm.iter().any(|i| a.pats[*i].1.is_some()));
+                    let literal_scrutinee = matches!(a.scrutinee, "None" | "Some(x)" | "Ok(x)" | "Err(b)");
+                    let class_key = match mixed {
+                        Some(shape) => {
+                            let _ = shape;
+                            Some("match arm whose `|` alternation contains a binding pattern".to_string())
+                        }
+                        None if has_binder && literal_scrutinee && !default => Some(format!(
+                            "match on `{}` with a binding pattern accepted although no arm covers every value",
+                            a.scrutinee
+                        )),
+                        None => None,
+                    };
+                    let mut e = fun("int", &format!("return match {} {{ {} }}", a.scrutinee, arm_texts_e.join(" ")), "match_expr_patterns");
+                    e.class_key = class_key.clone();
+                    out.push(e);
+                    let mut e = fun("int", &format!("match {} {{ {} }} return 8", a.scrutinee, arm_texts_s.join(" ")), "match_stmt_patterns");
+                    e.class_key = class_key;
+                    out.push(e);
                 }
             }
         }
@@ -199,7 +239,7 @@ fn e2_positions(out: &mut Vec<Edge>) {
                     ret: o.ret,
                     body: vec![Stmt::Return(e)],
                 };
-                out.push(Edge { extra_decls: "", text: print_fn(&def), family: "operand_positions", kind: EdgeKind::Function });
+                out.push(Edge { extra_decls: "", text: print_fn(&def), family: "operand_positions", kind: EdgeKind::Function, class_key: None });
             }
         }
     }
@@ -239,6 +279,19 @@ fn e3_cross_types(out: &mut Vec<Edge>) {
             for v2 in ["st", "tt"] {
                 out.push(fun("int", &format!("let v = {base}...{v1}, ...{v2} }} return 0"), "struct_composition"));
             }
+        }
+    }
+    // struct literals that leave fields out, and what can then be done with the value
+    for lit in ["S { }", "S { a: 1 }", "S { b: true }", "T { a: 1 }", "T { c: s, b: b }", "S2 { a: x }"] {
+        for usage in [
+            "return v.a", "if v.b { return 1 } return 0", "let w = v substruct S return 0", "let w = v substruct S2 return 0",
+            "let w = v as S2 return 0", "let w = v as S return 0", "if v == st { return 1 } return 0", "let w = T { c: s, ...v } return w.a",
+            "let w = S { ...v } if w.b { return 1 } return 0", "let w = Some(v) match w { Some(q) => { return q.a } None => { return 0 } }",
+            "return h_int(v.a)",
+        ] {
+            let mut e = fun("int", &format!("let v = {lit} {usage}"), "struct_literal_missing_fields");
+            e.class_key = Some("struct literal that omits declared fields".to_string());
+            out.push(e);
         }
     }
     out.push(fun("int", "let w = st as S2 let v = S { ...w } return v.a", "struct_composition"));
@@ -292,7 +345,11 @@ fn e4_scoping(out: &mut Vec<Edge>) {
         "return h_int(h_int(h_int(h_int(h_int(h_int(h_int(h_int(x))))))))",
     ];
     for b in bodies {
-        out.push(fun("int", b, "scoping"));
+        let mut e = fun("int", b, "scoping");
+        if b.contains("Some(v) | None") {
+            e.class_key = Some("match arm whose `|` alternation contains a binding pattern".to_string());
+        }
+        out.push(e);
     }
     // the same name as a function parameter of a called function, recursion-free chains
     out.push(Edge {
@@ -300,6 +357,7 @@ fn e4_scoping(out: &mut Vec<Edge>) {
         text: format!("function f({}) int {{ let w = k1(x) let v = k1(w) return v }}", sig()),
         family: "scoping",
         kind: EdgeKind::Function,
+        class_key: None,
     });
     // direct and mutual recursion (accepted; ends by argument or by stack exhaustion, which the statement excepts)
     out.push(Edge {
@@ -307,6 +365,7 @@ fn e4_scoping(out: &mut Vec<Edge>) {
         text: format!("function f({}) int {{ return down(if x > 50 {{ :50 }} else {{ :x }}) }}", sig()),
         family: "scoping",
         kind: EdgeKind::Function,
+        class_key: None,
     });
 }
 
@@ -340,12 +399,12 @@ fn e5_facts(out: &mut Vec<Edge>) {
     };
     for l in lits {
         let (use_q, _) = ret_of(l);
-        out.push(Edge { extra_decls: FACT_DECLS, text: format!("function f({}) int {{ let r0 = query {l} match r0 {{ Some(q) => {{ return {use_q} }} None => {{ return -1 }} }} }}", sig()), family: "fact_queries", kind: EdgeKind::Function });
-        out.push(Edge { extra_decls: FACT_DECLS, text: format!("function f({}) int {{ if exists {l} {{ return 1 }} return 0 }}", sig()), family: "fact_queries", kind: EdgeKind::Function });
+        out.push(Edge { extra_decls: FACT_DECLS, text: format!("function f({}) int {{ let r0 = query {l} match r0 {{ Some(q) => {{ return {use_q} }} None => {{ return -1 }} }} }}", sig()), family: "fact_queries", kind: EdgeKind::Function, class_key: None });
+        out.push(Edge { extra_decls: FACT_DECLS, text: format!("function f({}) int {{ if exists {l} {{ return 1 }} return 0 }}", sig()), family: "fact_queries", kind: EdgeKind::Function, class_key: None });
         for n in ["1", "2", "0", "-1", "9223372036854775807"] {
-            out.push(Edge { extra_decls: FACT_DECLS, text: format!("function f({}) int {{ return count_up_to {n} {l} }}", sig()), family: "fact_counts", kind: EdgeKind::Function });
+            out.push(Edge { extra_decls: FACT_DECLS, text: format!("function f({}) int {{ return count_up_to {n} {l} }}", sig()), family: "fact_counts", kind: EdgeKind::Function, class_key: None });
             for c in ["at_least", "at_most", "exactly"] {
-                out.push(Edge { extra_decls: FACT_DECLS, text: format!("function f({}) int {{ if {c} {n} {l} {{ return 1 }} return 0 }}", sig()), family: "fact_counts", kind: EdgeKind::Function });
+                out.push(Edge { extra_decls: FACT_DECLS, text: format!("function f({}) int {{ if {c} {n} {l} {{ return 1 }} return 0 }}", sig()), family: "fact_counts", kind: EdgeKind::Function, class_key: None });
             }
         }
         // map loops in actions (action parameters: x int, s string, b bool)
@@ -358,7 +417,7 @@ fn e5_facts(out: &mut Vec<Edge>) {
             format!("map {la} as q {{ action other(x) }}"),
             format!("map {la} as q {{ if b {{ publish Cmd {{ a: 1 }} }} }} publish Cmd {{ a: 2 }}"),
         ] {
-            out.push(Edge { extra_decls: FACT_DECLS, text: format!("action f(x int, s string, b bool) {{ {body} }}"), family: "map_loops", kind: EdgeKind::Action });
+            out.push(Edge { extra_decls: FACT_DECLS, text: format!("action f(x int, s string, b bool) {{ {body} }}"), family: "map_loops", kind: EdgeKind::Action, class_key: None });
         }
     }
     for body in [
@@ -386,18 +445,21 @@ fn e5_facts(out: &mut Vec<Edge>) {
         "emit Eff { a: 1 }",
         "create F[k: 1]=>{v: 1}",
     ] {
-        out.push(Edge { extra_decls: FACT_DECLS, text: format!("action f(x int, s string, b bool) {{ {body} }}"), family: "actions", kind: EdgeKind::Action });
+        let ck = if body == "publish Cmd { }" { Some("struct literal that omits declared fields".to_string()) } else { None };
+        out.push(Edge { extra_decls: FACT_DECLS, text: format!("action f(x int, s string, b bool) {{ {body} }}"), family: "actions", kind: EdgeKind::Action, class_key: ck.clone() });
         out.push(Edge {
             extra_decls: FACT_DECLS,
             text: format!("action f(x int, s string, b bool) result[unit, int] {{ {body} return Ok(Unit) }}"),
             family: "actions",
             kind: EdgeKind::Action,
+            class_key: ck,
         });
         out.push(Edge {
             extra_decls: FACT_DECLS,
             text: format!("ephemeral action f(x int, s string, b bool) {{ {body} }}"),
             family: "actions",
             kind: EdgeKind::Action,
+            class_key: None,
         });
     }
 }
@@ -450,7 +512,9 @@ fn clone_store(s: &RecIo) -> RecIo {
 
 fn run_edge(rep: &mut Report, e: &Edge, tuples: &[Vec<Value>], stores: &[RecIo]) {
     rep.count("edge_candidates", 1);
-    let text = format!("{PRELUDE}{}{}{}\n", gen::HELPERS, e.extra_decls, e.text);
+    // helper declarations only when the candidate mentions them (keeps the per-candidate compile small)
+    let helpers = if e.text.contains("h_") { gen::HELPERS } else { "" };
+    let text = format!("{PRELUDE}{helpers}{}{}\n", e.extra_decls, e.text);
     let machine = match vmrun::compile_text(&text, Ffi::None) {
         Ok(m) => Machine::from_module(m).unwrap_or_else(|_| mcx::machinery_error("module version")),
         Err(msg) => {
@@ -501,9 +565,13 @@ fn run_edge(rep: &mut Report, e: &Edge, tuples: &[Vec<Value>], stores: &[RecIo])
                         if std::env::var_os("POL_DEBUG").is_some() {
                             eprintln!("WRONG {kind}: {msg} :: {} :: {}", e.family, e.text.split(") ").skip(1).collect::<Vec<_>>().join(") "));
                         }
+                        let key = match &e.class_key {
+                            Some(k) => format!("{k}: {kind}"),
+                            None => e.text.clone(),
+                        };
                         rep.violation(
-                            e.text.clone(),
-                            format!("accepted program went wrong (tuple {ti}, store of {} facts): {kind}: {msg}", st.facts.len()),
+                            key,
+                            format!("accepted program went wrong (tuple {ti}, store of {} facts): {kind}: {msg}\nprogram: {}", st.facts.len(), e.text),
                             json!({"program": e.text, "decls": e.extra_decls, "tuple": ti, "family": e.family}),
                         );
                     }
@@ -518,13 +586,16 @@ fn run_edge(rep: &mut Report, e: &Edge, tuples: &[Vec<Value>], stores: &[RecIo])
     }
 }
 
-fn edges(_tier: Tier) -> Vec<Edge> {
+fn edges(tier: Tier) -> Vec<Edge> {
     let mut v = Vec::new();
-    e1_patterns(&mut v);
+    e1_patterns(&mut v, tier);
     e2_positions(&mut v);
     e3_cross_types(&mut v);
     e4_scoping(&mut v);
     e5_facts(&mut v);
+    // identical candidates (e.g. "first binder" = "last binder") are run once
+    let mut seen = std::collections::HashSet::new();
+    v.retain(|e| seen.insert((e.extra_decls.len(), e.text.clone())));
     v
 }
 
@@ -537,6 +608,7 @@ pub fn run(args: &Args) {
     let tuples = c22::arg_tuples(args.tier);
     // (1) the typed corpus
     c22::run_streamed(&mut rep, args.tier, &tuples, Mode::GoesWrong);
+    rep.set("wall_typed_corpus_s", rep.elapsed().as_secs_f64());
     // (2) edge families
     let all = edges(args.tier);
     let vm_tuples: Vec<Vec<Value>> = c22::arg_tuples(Tier::Quick).iter().map(|t| t.iter().map(vmrun::to_value).collect()).collect();
@@ -558,6 +630,7 @@ pub fn run(args: &Args) {
     for w in workers {
         rep.absorb(w);
     }
+    rep.set("wall_after_edges_s", rep.elapsed().as_secs_f64());
     // (3) command policies with policy / recall / finish
     let policies: Vec<Vec<Stmt>> = c30::corpus(Tier::Quick).into_iter().filter(|p| args.tier == Tier::Thorough || c30::stmt_size(p) <= 3).collect();
     c30::run_policies(&mut rep, &policies, true);
